@@ -79,10 +79,24 @@ var replayers = map[string]replayFn{}
 func safely[C any](run func(C, *stat.Rec) *stat.Failure, c C, rec *stat.Rec) (f *stat.Failure) {
 	defer func() {
 		if r := recover(); r != nil {
-			f = stat.Failf("harness-or-library-panic", "panic: %v\n%s", r, debug.Stack())
+			f = panicFailure(rec.ID, r, debug.Stack())
 		}
 	}()
 	return run(c, rec)
+}
+
+// panicFailure classifies a recovered panic: if a frame of the library is on the panicking
+// stack it is the library that panicked (a violation of "never panics"); otherwise the
+// machinery is at fault (reported as a harness problem, never as a violation).
+func panicFailure(id string, r interface{}, stack []byte) *stat.Failure {
+	st := string(stack)
+	if i := strings.Index(st, "panic("); i >= 0 {
+		st = st[i:]
+	}
+	if strings.Contains(st, "github.com/pierrec/lz4/v4") {
+		return stat.Failf(id+"/panic-escapes-from-the-library", "panic: %v\n%s", r, stack)
+	}
+	return stat.Failf("harness-panic", "panic: %v\n%s", r, stack)
 }
 
 // register makes a check replayable: name is "<property>/<check>".
